@@ -24,9 +24,10 @@ def main():
         out = []
         for c in checks:
             t = time.time()
-            r = sh("cd /verif && ./check %s --tier quick" % c)
+            mode = os.environ.get("MUT_MODE", "--tier quick")  # e.g. MUT_MODE=--fuzz-only
+            r = sh("cd /verif && ./check %s %s" % (c, mode))
             viol = [l for l in r.stdout.splitlines() if l.startswith("VIOLATION")]
-            fails = [l for l in r.stdout.splitlines() if l.startswith("failure in rule") or l.startswith("regression")]
+            fails = [l for l in r.stdout.splitlines() if l.startswith("failure in rule") or l.startswith("regression") or l.startswith("fuzz failure")]
             status = {0: "MISSED", 1: "CAUGHT"}.get(r.returncode, "INCONCLUSIVE")
             print("%s %s rc=%d %.0fs %s" % (c, status, r.returncode, time.time() - t, (fails[0][:200] if fails else "")))
             if status == "INCONCLUSIVE": print(r.stdout[-1500:])
